@@ -23,6 +23,17 @@
 (*   Fail           all remotes reported: 404 if all were 404, else 502    *)
 (*   CallerCancel   the client gives up: the context of every outstanding  *)
 (*                  call is cancelled                                      *)
+(* Variant "legacy" = lib/controller/fed_collections.go, same shape:       *)
+(*   fetchRemoteCollectionByPDH: localClusterRequest; any answer but 404   *)
+(*   is forwarded as it came (a 200 from the local cluster is NOT hashed); *)
+(*   404 -> one goroutine per remote: remoteClusterRequest, non-200 ->     *)
+(*   errorChan, 200 -> rewriteSignatures (hash computed while rewriting,   *)
+(*   compared with the requested one and with the record's own             *)
+(*   portable_data_hash) -> `success` channel / errorChan; first success   *)
+(*   wins and cancels the rest; all done -> 404 if all were 404 else 502.  *)
+(*   fetchRemoteCollectionByUUID (remote prefix only): rewriteSignatures   *)
+(*   with the record's own hash as the expectation, so a manifest that     *)
+(*   does not hash to the record's portable_data_hash is refused.          *)
 (* The environment fixes each backend's behaviour up front (plan):         *)
 (* match, mismatch, s404, s5xx or hang (answers only once its context is   *)
 (* cancelled) and chooses the order in which outstanding calls are         *)
@@ -30,7 +41,8 @@
 (***************************************************************************)
 EXTENDS Integers, Sequences, FiniteSets, TLC, Json, IOUtils, SequencesExt
 
-CONSTANTS MaxN,      \* max number of remotes
+CONSTANTS Variant,   \* "conn": federation.Conn.CollectionGet   "legacy": controller fed_collections.go
+          MaxN,      \* max number of remotes
           Modes,     \* subset of {"pdh", "uuid"}
           MaxHist
 
@@ -58,7 +70,7 @@ Plans == {"match", "mismatch", "s404", "s5xx", "hang"}
 Init ==
     \E n \in 0 .. MaxN, m \in Modes, p \in [B -> Plans], h \in 0 .. MaxN :
         /\ \A b \in B : b > n => p[b] = "s404"          \* unused backends: one canonical value
-        /\ IF m = "uuid" THEN h <= n ELSE h = 0
+        /\ IF m = "uuid" THEN h <= n /\ (Variant = "legacy" => h >= 1) ELSE h = 0
         /\ C!CInit([n |-> n, mode |-> m])
         /\ plan = p /\ home = h
         /\ pc = "start"
@@ -102,7 +114,7 @@ UAnswer ==
 \* generate it: home = 0 means a local prefix.)
 UReturn ==
     /\ pc = "ucheck"
-    /\ IF got[home] \in {"match", "mismatch"}
+    /\ IF got[home] = "match" \/ (got[home] = "mismatch" /\ Variant = "conn")
        THEN C!GetDone(TRUE, got[home] = "match", Rel(home))
        ELSE C!GetDone(FALSE, FALSE, NoRel)
     /\ pc' = "returned"
@@ -128,7 +140,8 @@ LAnswer ==
 LCheck ==
     /\ pc = "lcheck"
     /\ st' = [b \in B |-> IF b = 0 THEN "sent" ELSE IF got[0] = "s404" /\ b <= cfg.n THEN "go" ELSE st[b]]
-    /\ CASE got[0] = "match" -> /\ C!GetDone(TRUE, TRUE, Rel(0))
+    /\ CASE got[0] = "match" \/ (got[0] = "mismatch" /\ Variant = "legacy") ->
+                                /\ C!GetDone(TRUE, got[0] = "match", Rel(0))
                                 /\ first' = 0 /\ pc' = "returned"
          [] got[0] = "s404"  -> /\ UNCHANGED <<cvars, first>>
                                 /\ pc' = "collect"
@@ -220,7 +233,7 @@ TypeOK == /\ pc \in {"start", "uwait", "ucheck", "lwait", "lcheck", "collect", "
           /\ C!TypeOK
 
 \* what is in `first` always passed the hash check
-FirstIsHonest == first # -1 => got[first] = "match"
+FirstIsHonest == (first # -1 /\ ~(Variant = "legacy" /\ first = 0)) => got[first] = "match"
 \* errchan never overflows its capacity (no goroutine blocks for ever on it)
 ChanFits == cfg.mode = "pdh" => Len(errchan) + nrecv <= cfg.n
 \* the request ends: every outstanding call is answered or cancelled
